@@ -1,4 +1,5 @@
 import PyodaModel.DriverLoop
 import PyodaModel.Text
+import PyodaModel.Text.PyIsoParse
 
-def main : IO Unit := Pyoda.runDriver [Pyoda.Text.handle]
+def main : IO Unit := Pyoda.runDriver [Pyoda.Text.handle, Pyoda.Text.PyIsoParse.handle]
